@@ -4,6 +4,7 @@ import (
 	"flag"
 	"fmt"
 	"os"
+	"runtime"
 	"runtime/debug"
 	"runtime/pprof"
 	"strings"
@@ -24,6 +25,14 @@ func main() {
 	known := flag.String("known", envOr("LH_KNOWN", "/verif/known_findings.json"), "known findings file")
 	goarch := flag.String("goarch", "", "GOARCH override")
 	flag.Parse()
+	// allocation-heavy, short-lived: fewer GC cycles and fewer scheduler threads cut the run time by more than half on
+	// this kind of machine (the analysis itself is deterministic and does not depend on either setting)
+	if os.Getenv("GOGC") == "" {
+		debug.SetGCPercent(400)
+	}
+	if os.Getenv("GOMAXPROCS") == "" && runtime.NumCPU() > 8 {
+		runtime.GOMAXPROCS(8)
+	}
 
 	start := time.Now()
 	code := 0
